@@ -32,6 +32,9 @@ func extraJobs(tier string) []job {
 	for i := 0; i < nStale; i++ {
 		j = append(j, job{"stale", i, 0, 0})
 	}
+	for i := 0; i < 2; i++ {
+		j = append(j, job{"heavy", i, 0, 0})
+	}
 	return j
 }
 
@@ -45,6 +48,8 @@ func runExtra(seed int64, j job) ScenarioOut {
 		return scenarioLoad(seed, j.idx)
 	case "stale":
 		return scenarioStale(seed, j.idx)
+	case "heavy":
+		return scenarioHeavy(seed, j.idx)
 	}
 	return ScenarioOut{Name: j.kind, Stats: map[string]int{}}
 }
@@ -576,6 +581,13 @@ func scenarioLoad(seed int64, idx int) ScenarioOut {
 	if len(seen) != len(src.prev.Vertices) {
 		src.violate("C14", "stream-incomplete", fmt.Sprintf("StreamDAG sent %d of %d live vertices", len(seen), len(src.prev.Vertices)))
 	}
+	if len(stream) == 0 {
+		// the source ended with an empty DAG (an overdrawing gossiped vertex with a huge weight was admitted as a tip, raised the
+		// node's weight when it was validated and dropped, and the genesis vertex, a tip again, then failed the weight window):
+		// there is no ledger to reproduce. Recorded as an observation (DESIGN 10.2), not a C14 case.
+		src.stats["load.source_has_no_vertices"]++
+		return s.out("load", false)
+	}
 	corrupt := idx % 6
 	dst := newNode(w, fmt.Sprintf("load%d.dst", idx), w.wallets[6])
 	defer dst.close()
@@ -646,6 +658,7 @@ func scenarioLoad(seed int64, idx int) ScenarioOut {
 		s.nodes = []*Node{src, dst}
 		for k := 0; k < 6; k++ {
 			s.lastCrafted = nil
+			srcPrev, dstPrev := src.prev, dst.prev
 			s.crafted(src, 0, -1)
 			if s.lastCrafted == nil {
 				continue
@@ -653,7 +666,21 @@ func scenarioLoad(seed int64, idx int) ScenarioOut {
 			cls2 := dst.add(s.lastCrafted, -1)
 			dst.stats["load.followup"]++
 			if cls2 != s.lastCls {
-				dst.violate("C14", "followup-gossip-differs", fmt.Sprintf("vertex %d: source answers %s, loaded node %s", w.H(s.lastCrafted.Hash), s.lastCls, cls2))
+				// is the difference explained by the admission counters (weight window of the parents) alone?
+				vw := func(weight, thr, w uint64) bool { return weight < thr || weight-thr <= w }
+				key := "followup-gossip-differs"
+				srcBefore, dstBefore := srcPrev, dstPrev
+				for _, ph := range [][32]byte{s.lastCrafted.LeftParentHash, s.lastCrafted.RightParentHash} {
+					for i := range srcBefore.Vertices {
+						if p := &srcBefore.Vertices[i]; p.Hash == ph && vw(srcBefore.Weight, srcBefore.Throughput, p.Weight) != vw(dstBefore.Weight, dstBefore.Throughput, p.Weight) {
+							key = "followup-gossip-differs:weight-window-not-reproduced"
+						}
+					}
+				}
+				dst.violate("C14", key, fmt.Sprintf("vertex %d (weight %d, parents %d %d): source answers %s, loaded node %s; source weight/throughput %d/%d, loaded %d/%d",
+					w.H(s.lastCrafted.Hash), s.lastCrafted.Weight, w.H(s.lastCrafted.LeftParentHash), w.H(s.lastCrafted.RightParentHash), s.lastCls, cls2,
+					srcBefore.Weight, srcBefore.Throughput, dstBefore.Weight, dstBefore.Throughput))
+				break // the two ledgers have diverged: later differences are consequences
 			}
 		}
 	}
@@ -753,5 +780,69 @@ func scenarioStale(seed int64, idx int) ScenarioOut {
 	}
 	o.Steps += len(n.steps)
 	o.NonTriv = okCreate+okAdd > 0
+	return o
+}
+
+// ---------------------------------------------------------------- heavy vertex (C09 weight wrap, C14 counters): deterministic
+// reproduction of two known findings on the real code: a valid gossiped vertex of weight 2^64-1, a proposal on top of it
+// (its weight wraps to 0), a node that syncs from this peer, and the same follow-up vertex offered to both.
+func scenarioHeavy(seed int64, idx int) ScenarioOut {
+	w := newWorld(seed*5300009+int64(idx), 7)
+	s := &sim{w: w, bal: map[string]int64{}, pending: map[int][]*accountant.Vertex{}, clock: time.Now().Add(-time.Hour)}
+	s.genesisSigner, s.recvRich, s.users = w.wallets[0], w.wallets[1], w.wallets[1:5]
+	src := newNode(w, fmt.Sprintf("heavy%d.src", idx), w.wallets[0])
+	defer src.close()
+	s.nodes = []*Node{src}
+	gv, _ := src.genesis(s.recvRich.Address(), spice.Melange{Currency: 5000})
+	if gv == nil {
+		return s.out("heavy", false)
+	}
+	sealer := w.wallets[5]
+	t0 := craftTrx(s.recvRich, s.users[1].Address(), "heavy", nil, spice.Melange{Currency: 1}, s.now())
+	big, _ := accountant.NewVertex(t0, gv.Hash, gv.Hash, ^uint64(0)-uint64(idx), sealer)
+	w.remember(&big)
+	if src.add(&big, -1) != "ROk" {
+		return s.out("heavy", false)
+	}
+	// a gossiped vertex on the heavy tip: validating the heavy tip on the gossip path raises the node's own weight to 2^64-1
+	tc := craftTrx(s.recvRich, s.users[1].Address(), "on-heavy", nil, spice.Melange{Currency: 1}, s.now())
+	c1, _ := accountant.NewVertex(tc, big.Hash, big.Hash, 7, sealer)
+	w.remember(&c1)
+	src.add(&c1, -1)
+	t1 := craftTrx(s.recvRich, s.users[2].Address(), "on-top", nil, spice.Melange{Currency: 1}, s.now())
+	// the light tip c1 fails the weight window: it is dropped and (the error of the last visited tip being what the call returns) this proposal fails
+	src.create(&t1, -1)
+	t1b := craftTrx(s.recvRich, s.users[2].Address(), "on-top-again", nil, spice.Melange{Currency: 1}, s.now())
+	top, cls := src.create(&t1b, -1) // lands on the heavy vertex: idx 0: 2^64-1 + 1 wraps to 0
+	if cls != "ROk" {
+		return s.out("heavy", false)
+	}
+	src.stats["heavy.created_weight_is_zero."+fmt.Sprint(top.Weight == 0)]++
+	dst := newNode(w, fmt.Sprintf("heavy%d.dst", idx), w.wallets[6])
+	defer dst.close()
+	s.nodes = []*Node{src, dst}
+	if !loadInto(dst, streamOf(src), w) {
+		dst.violate("C14", "good-stream-refused", "LoadDag refused the peer's own stream")
+		return s.out("heavy", true)
+	}
+	// the same follow-up vertex on the tip, offered to both
+	t2 := craftTrx(s.recvRich, s.users[3].Address(), "follow", nil, spice.Melange{Currency: 1}, s.now())
+	fv, _ := accountant.NewVertex(t2, top.Hash, top.Hash, top.Weight+1, sealer)
+	w.remember(&fv)
+	srcPrev, dstPrev := src.prev, dst.prev
+	r1 := src.add(&fv, -1)
+	r2 := dst.add(&fv, -1)
+	dst.stats["load.followup"]++
+	if r1 != r2 {
+		vw := func(weight, thr, x uint64) bool { return weight < thr || weight-thr <= x }
+		key := "followup-gossip-differs"
+		if vw(srcPrev.Weight, srcPrev.Throughput, top.Weight) != vw(dstPrev.Weight, dstPrev.Throughput, top.Weight) {
+			key = "followup-gossip-differs:weight-window-not-reproduced"
+		}
+		dst.violate("C14", key, fmt.Sprintf("vertex %d on the tip of weight %d: source answers %s, loaded node %s; source weight/throughput %d/%d, loaded %d/%d",
+			w.H(fv.Hash), top.Weight, r1, r2, srcPrev.Weight, srcPrev.Throughput, dstPrev.Weight, dstPrev.Throughput))
+	}
+	o := s.out("heavy", true)
+	o.NonTriv = true
 	return o
 }
